@@ -86,7 +86,8 @@ type Layer interface {
 	Refresh(ctx context.Context, hosts source.RegistryHosts, refspec reference.Spec, desc ocispec.Descriptor) error
 
 	// Verify verifies this layer using the passed TOC Digest.
-	// Nop if Verify() or SkipVerify() was already called.
+	// This can be called multiple times (e.g. for each mount of a cached layer);
+	// the passed digest is checked every time.
 	Verify(tocDigest digest.Digest) (err error)
 
 	// SkipVerify skips verification for this layer.
@@ -471,11 +472,15 @@ func (l *layer) Verify(tocDigest digest.Digest) (err error) {
 	if l.isClosed() {
 		return fmt.Errorf("layer is already closed")
 	}
-	if l.r != nil {
-		return nil
+	// Always check the passed digest, even if Verify() or SkipVerify() was already
+	// called on this (possibly cached and shared) layer: a mount that pins a TOC
+	// digest must not succeed unless the TOC of this layer has that digest.
+	r, err := l.verifiableReader.VerifyTOC(tocDigest)
+	if err != nil {
+		return err
 	}
-	l.r, err = l.verifiableReader.VerifyTOC(tocDigest)
-	return
+	l.r = r
+	return nil
 }
 
 func (l *layer) SkipVerify() {
